@@ -116,19 +116,40 @@ fn main() {
             let recorded_oracle = std::fs::read_to_string(&args[3]).ok().and_then(|s| serde_json::from_str::<serde_json::Value>(&s).ok()).and_then(|v| v["oracle"].as_str().map(|s| s.to_string())).unwrap_or_default();
             if (recorded_oracle.starts_with("crash:") || recorded_oracle.starts_with("timeout")) && std::env::var("WALRUS_DST_REPLAY_INNER").is_err() {
                 let exe = std::env::current_exe().expect("current_exe");
-                let st = std::process::Command::new(exe).args(&args[1..]).env("WALRUS_DST_REPLAY_INNER", "1").status();
-                use std::os::unix::process::ExitStatusExt;
-                match st {
-                    Ok(st) if st.signal().is_some() => {
-                        println!("VIOLATION property={} replay={}", prop.id(), args[3]);
-                        println!("  oracle=crash:signal{} detail=the process replaying this input under the worker's resource limits died with signal {} (recorded: {})", st.signal().unwrap(), st.signal().unwrap(), recorded_oracle);
-                        std::process::exit(1);
-                    }
-                    Ok(st) => std::process::exit(st.code().unwrap_or(2)),
+                let limit = std::time::Duration::from_secs(std::env::var("WALRUS_DST_REPLAY_TIMEOUT").ok().and_then(|s| s.parse().ok()).unwrap_or(900));
+                let mut child = match std::process::Command::new(exe).args(&args[1..]).env("WALRUS_DST_REPLAY_INNER", "1").spawn() {
+                    Ok(c) => c,
                     Err(e) => {
                         eprintln!("HARNESS: cannot start the replay child: {}", e);
                         std::process::exit(2);
                     }
+                };
+                let t0 = std::time::Instant::now();
+                let st = loop {
+                    match child.try_wait() {
+                        Ok(Some(st)) => break Some(st),
+                        Ok(None) if t0.elapsed() > limit => {
+                            let _ = child.kill();
+                            let _ = child.wait();
+                            break None;
+                        }
+                        Ok(None) => std::thread::sleep(std::time::Duration::from_millis(50)),
+                        Err(_) => break None,
+                    }
+                };
+                use std::os::unix::process::ExitStatusExt;
+                match st {
+                    None => {
+                        println!("VIOLATION property={} replay={}", prop.id(), args[3]);
+                        println!("  oracle=timeout:no_progress detail=the process replaying this input did not finish within {:?} (recorded: {})", limit, recorded_oracle);
+                        std::process::exit(1);
+                    }
+                    Some(st) if st.signal().is_some() => {
+                        println!("VIOLATION property={} replay={}", prop.id(), args[3]);
+                        println!("  oracle=crash:signal{} detail=the process replaying this input under the worker's resource limits died with signal {} (recorded: {})", st.signal().unwrap(), st.signal().unwrap(), recorded_oracle);
+                        std::process::exit(1);
+                    }
+                    Some(st) => std::process::exit(st.code().unwrap_or(2)),
                 }
             }
             // the resource limits of a worker are part of the fault environment of the run
@@ -309,6 +330,20 @@ fn main() {
             let e2 = match m2 { Ok(mut m) => m.emit_wasm(), Err(e) => { println!("reparse failed: {}", e); return; } };
             std::fs::write(format!("{}.2.wasm", args[4]), &e2).unwrap();
             println!("e1 {} bytes valid={:?}; e2 {} bytes valid={:?}; equal={}", e1.len(), validator::validate(&e1, false), e2.len(), validator::validate(&e2, false), e1 == e2);
+        }
+        "bombtest" => {
+            // validity and parse cost of the large-in-one-dimension modules (tuning aid)
+            for kind in 10u8..19 {
+                for n in [1000u32, 20_000, 100_000] {
+                    let n = if kind == 10 { n / 100 } else { n };
+                    let b = faults::nest_bomb(n, kind);
+                    let v = validator::validate(&b, false).is_ok();
+                    let t0 = std::time::Instant::now();
+                    let b2 = b.clone();
+                    let ok = simrt::run_plain(Some(1), 64 << 20, move || ser::walrus::Module::from_buffer(&b2).is_ok()).unwrap_or(false);
+                    println!("kind {} n {} bytes {} valid {} walrus_ok {} parse {:?}", kind, n, b.len(), v, ok, t0.elapsed());
+                }
+            }
         }
         "gentest" => {
             let n: u64 = args.get(2).and_then(|s| s.parse().ok()).unwrap_or(2000);
